@@ -43,6 +43,9 @@ MANIFEST = {
 
 
 def run(ctx):
+    from rules.common import check_sentinel_default as _csd
+    for _c in ('cacheutils.LRI', 'cacheutils.LRU'):
+        _csd(ctx, ctx.program, ctx.program.resolve(ctx.program.cls(_c), 'pop'), recv=ctx.program.cls(_c))
     from rules.common import require_fields
     require_fields(ctx.program, 'cacheutils.LRI', ['_anchor', '_link_lookup', 'hit_count', 'miss_count', 'soft_miss_count', 'max_size', 'on_miss'])
     for cls in ('cacheutils.LRI', 'cacheutils.LRU'):
